@@ -293,3 +293,21 @@ Definition label_nonzero (l : label) : bool :=
   match l with LSubmit _ (RqRead _ len) => (1 <=? len)%nat | _ => true end.
 Definition step_nonzero (idx : index) (nullid : id) (store : store_t) (s : sstate) (l : label) : option sstate :=
   if label_nonzero l then step idx nullid store s l else None.
+
+(* chunk i has been fetched successfully (call number c of the store) and written, in this or an earlier incarnation *)
+Definition fetched_ok (idx : index) (store : store_t) (fl : list (nat * nat)) (i : nat) : Prop :=
+  exists c d, In (c, i) fl /\ store c (r_id (nth i idx row0)) = SData d.
+
+(* a row and a byte range have a byte in common *)
+Definition row_overlaps (r : row) (off : Z) (len : nat) : Prop :=
+  Z.of_N (r_start r) < off + Z.of_nat len /\ off < r_end r.
+
+(* A successful ReadAt is backed by a successful GetChunk for every chunk it covers (null chunks are never fetched). *)
+Definition read_backed (idx : index) (nullid : id) (store : store_t) (fl : list (nat * nat)) (e : request * result) : Prop :=
+  match e with
+  | (RqRead off len, ROk _ _) =>
+      0 <= off -> (1 <= len)%nat -> off + Z.of_nat len < two64 ->
+      forall j r, nth_error idx j = Some r -> row_overlaps r off len ->
+                  r_id r = nullid \/ fetched_ok idx store fl j
+  | _ => True
+  end.
